@@ -284,7 +284,7 @@ func runC03(c *Ctx) {
 	check = func(origin string, in []byte, feats map[string]bool) (ok bool, nontriv bool) {
 		var out []byte
 		var err error
-		p, _ := Safely(func() {
+		p, pst := Safely(func() {
 			env, e := gx.EnvelopDoc(in)
 			err = e
 			if e == nil {
@@ -293,6 +293,7 @@ func runC03(c *Ctx) {
 		})
 		if p != nil {
 			c.R.Count("panics", 1)
+			c.R.Fail("panic:"+panicSite(pst), fmt.Sprintf("%s: calculation panicked: %v", origin, p), map[string]any{"origin": origin, "input": json.RawMessage(in)})
 			return false, false
 		}
 		if err != nil {
@@ -414,4 +415,5 @@ func runC03(c *Ctx) {
 	for _, k := range keys {
 		c.R.Count(k, tot[k])
 	}
+	c.Require("documents", "identities_evaluated", "identities_after_RemoveIncludedTaxes", "recalculated_after_removing:charges", "feature:preset-rounding")
 }
